@@ -6,6 +6,7 @@ from agen import bits
 from devprop import DevProp
 
 LEARN = 68
+PANIC = 67      # other actions do not touch the controllers: a panic tap between two positions (it sends All Notes Off and Note Offs only)
 
 
 def a(code, val, sub=""):
@@ -91,7 +92,8 @@ class C07(DevProp):
             analogs.append(agen.analog(agen.ABS_Z, "cc", cc=ccs[-1], off=1))
             absl.append({"code": agen.ABS_Z, "min": 0, "max": 255})
             dz = rng.choice([0.0, 0.1, 0.25])
-            cfg = agen.base_cfg(analogs, defdz=[{"sub": sb, "bits": str(bits(dz))} for sb in SUBS], actions=[{"code": LEARN, "action": "cc_learning"}], channel=ch0)
+            cfg = agen.base_cfg(analogs, defdz=[{"sub": sb, "bits": str(bits(dz))} for sb in SUBS],
+                                actions=[{"code": LEARN, "action": "cc_learning"}, {"code": PANIC, "action": "panic"}], cmode=devgen.CMODES[ci % 4], channel=ch0)
             ev = []
             learning = False
             script = list(allpairs)
@@ -110,10 +112,15 @@ class C07(DevProp):
                 if rng.random() < 0.2:
                     learning = not learning
                     ev.append(k(LEARN, 1 if learning else 0))
+                if rng.random() < 0.15:
+                    ev += [k(PANIC, 1), k(PANIC, 0)]
             if learning:
                 ev.append(k(LEARN, 0))
             for code, pos, sub in axinfo:
                 ev += [a(code, pos["far+"], sub), a(code, pos["far-"], sub), a(code, pos["c"], sub)]
+            for code, pos, sub in axinfo:
+                ev += [a(code, pos["far+"], sub), k(PANIC, 1), k(PANIC, 0), a(code, pos["far-"], sub), k(PANIC, 1), k(PANIC, 0), a(code, pos["half+"], sub),
+                       a(code, pos["c"], sub)]
             # the smallest possible crossings of the centre: from one or two raw steps on one side directly to the other side / onto it
             for code, pos, sub in axinfo:
                 mnx, mxx = [(x["min"], x["max"]) for x in absl if x["code"] == code][0]
